@@ -30,19 +30,26 @@ MANIFEST = dict(
           "REGENERATED from instructions.py by a fail-closed ast translator on every run and the documented matrices from "
           "the installed Stim's gate_data, so an edit to a gate re-checks the proof against what the code says now. "
           "Ties: primitive-call traces of the real gate functions equal the generated op lists; model matrices equal "
-          "Circuit.to_matrix() numerically incl. scalar. Compositions on permuted/non-adjacent qubits are validated "
-          "against the ordered product of documented matrices (search oracle), not proved."),
+          "Circuit.to_matrix() numerically incl. scalar. COMPOSITION is proved too (C05_circuit): for every sequence of "
+          "GATE_TABLE unitaries on any lanes of a register of any size the drawn program acts as one unit phase times the "
+          "documented gates applied in order (amplitude-function semantics; placement lemma by naturality of the generated "
+          "gate functions; the two-lane/one-lane dense matrices of the gate theorems are bridged to it by proof); rotations/"
+          "U3/T at any lane for every angle. Random compositions on sparse labels with adversarial literals are in addition "
+          "validated against the ordered product of documented matrices (search oracle)."),
     note=("Trusted: Coq kernel+vm_compute; translators translate/instructions.py, translate/stim_gates.py; hand model of "
           "the graph-touching primitives (Model/Lane.v: spiders, h, _cx_cz, swap, scalar) pinned by source fingerprints and "
           "validated numerically against pyzx's to_matrix on every run; pyzx tensor contraction is the oracle for to_matrix. "
-          "Print Assumptions: closed under the global context."),
+          "Print Assumptions: closed under the global context for the gate tables; the composition theorems use "
+          "functional_extensionality_dep (stdlib axiom, amplitude functions). Not proved: that the dense n-lane interpreter used by "
+          "the executable circuit model coincides with the amplitude-function semantics for n>2 (same formulas; proved for n=1,2)."),
     technique="Coq proof by reflection (exponential-polynomial normal form + soundness lemma) over an ast-translated model; trace and matrix correspondence",
     design_ref="DESIGN.md 4.C05",
 )
 
 TRANSLATORS = ["instructions", "stim_gates"]
 COQ_FILES = ["Base/EP.v", "Base/EPSound.v", "Model/Lane.v", "Spec/RotGates.v", "gen/Gen_instructions.v", "gen/Gen_stim_gates.v",
-             "Model/GateCheck.v", "Model/LaneShow.v", "Proofs/GateProofs.v", "Proofs/LaneFingerprints.v", "Props/C05.v"]
+             "Model/GateCheck.v", "Model/LaneShow.v", "Proofs/GateProofs.v", "Proofs/LaneFingerprints.v", "Base/Amp.v",
+             "Proofs/CircuitProofs.v", "Proofs/CircuitTheorem.v", "Props/C05.v"]
 IMPORTS = ("From Coq Require Import ZArith List QArith String. Import ListNotations.\n"
            "Require Import TV.Base.EP TV.Model.Lane TV.Spec.RotGates TV.gen.Gen_instructions TV.gen.Gen_stim_gates TV.Model.GateCheck TV.Model.LaneShow.\n")
 
